@@ -67,6 +67,20 @@ pub fn run_quad_edge(l: &[i128]) -> Vec<i128> {
     out
 }
 
+/// args: x0 y0 x1 y1 x2 y2 x3 y3 (bit patterns) shift -> n then n * (x dx first_y last_y winding)
+pub fn run_cubic_edge(l: &[i128]) -> Vec<i128> {
+    if l.len() != 9 {
+        return vec![-3];
+    }
+    let pts = [Point::from_xy(f(l[0]), f(l[1])), Point::from_xy(f(l[2]), f(l[3])), Point::from_xy(f(l[4]), f(l[5])), Point::from_xy(f(l[6]), f(l[7]))];
+    let ls = tiny_skia::verif_hooks::cubic_edge_lines(pts, l[8] as i32);
+    let mut out = vec![ls.len() as i128];
+    for (x, dx, fy, ly, wd) in ls {
+        out.extend_from_slice(&[x as i128, dx as i128, fy as i128, ly as i128, wd as i128]);
+    }
+    out
+}
+
 use crate::oracle;
 use tiny_skia::{IntSize, Mask, Paint, Pixmap, Transform};
 
